@@ -290,6 +290,11 @@ LawCond ==
     /\ Total(cur) = OneR
     /\ \A i \in 1..Len(Pre.ev) : RMulC(PAt(cur, Pre.ev[i]), ev) = RMulC(Pre.p[i], lk[i])
     /\ Supp(cur) \subseteq Supp(Pre)
+    \* Bayes' rule does not depend on a common positive factor of the likelihood.  The instance field LS[j]
+    \* names such a factor 2^-LS[j] (e.g. 2^-1027: the evidence is then a subnormal float, out of reach of
+    \* 32-bit rationals) with which the harness scales the real-valued likelihood handed to the code; the
+    \* posterior the model expects is the same.  Checked here with the factor 1/2.
+    /\ Cond(Pre, [i \in 1..Len(lk) |-> RMulC(lk[i], <<1, 2>>)]) = cur
 \* joint is the product measure
 LawJoint ==
   Is("joint") =>
